@@ -331,6 +331,12 @@ def run(ctx):
                     for b in bads:
                         rej.append((f"out-of-range {k}={b}", lambda k=k, b=b: copy.deepcopy(obj).update(**{k: b})))
                         rej.append((f"out-of-range {k}={b} (ctor)", lambda k=k, b=b: cls(**dict(realfuzz.BASE[cn], **{k: b}))))
+            # cross-parameter ranges checked by validate(): every framework class that has the parameters rejects them, by constructor and update()
+            for label_, kwx_ in (("lnk_min >= lnk_max", {"lnk_min": 2.0, "lnk_max": 1.0}), ("lnk_min == lnk_max", {"lnk_min": 3.0, "lnk_max": 3.0}), ("lnk_min above the default lnk_max", {"lnk_min": 12.0}),
+                                 ("fewer than two wavenumbers", {"lnk_min": 0.0, "lnk_max": 0.04, "dlnk": 0.05}), ("Mmin >= Mmax", {"Mmin": 15.0, "Mmax": 12.0})):
+                if all(k_ in kws for k_ in kwx_):
+                    rej.append((f"cross-parameter range {label_} {kwx_} (ctor)", lambda kwx_=kwx_: cls(**dict(realfuzz.BASE[cn], **kwx_))))
+                    rej.append((f"cross-parameter range {label_} {kwx_} (update)", lambda kwx_=kwx_: copy.deepcopy(obj).update(**kwx_)))
             # every numeric constructor argument accepts the usual numeric types (Python int, numpy integer / floating scalars, 0-d arrays):
             # through the constructor and through update() the outputs are those of the plain-float value
             if cn in ("MassFunction", "Transfer", "MassFunctionWDM"):
